@@ -39,6 +39,7 @@ type Contract struct {
 	SplitLo    int64
 	SplitHi    int64
 	Bounded    string // non-empty: this is a bounded stand-in (harness); text states the bound
+	PureParams []string // function-typed parameters modelled as uninterpreted pure functions
 	Reveal     []string // opaque spec functions whose definition is made available to this function's queries
 	Loops      map[int]*LoopSpec
 	Inline     bool
@@ -67,14 +68,23 @@ type Lemma struct {
 	Line   int
 }
 
+// Macro is a specification-level definition: name(params) = expr, expanded by the evaluator.
+type Macro struct {
+	Name   string
+	Pkg    string
+	Params []string
+	Body   ast.Expr
+}
+
 type ContractFile struct {
 	Pkg       string
 	Contracts []*Contract
 	Lemmas    []*Lemma
+	Macros    []*Macro
 }
 
 var clauseKeywords = map[string]bool{"requires": true, "ensures": true, "claims": true, "modifies": true, "panics_when": true, "loop": true,
-	"inline": true, "trusted": true, "nobody": true, "var": true, "assume": true, "prove": true, "props": true, "apply": true, "reveal": true, "unroll_calls": true, "bounded": true, "split": true}
+	"inline": true, "trusted": true, "nobody": true, "var": true, "assume": true, "prove": true, "props": true, "apply": true, "reveal": true, "unroll_calls": true, "bounded": true, "split": true, "pure_param": true}
 
 func parseContractFile(path, pkgPath string) (*ContractFile, error) {
 	data, err := os.ReadFile(path)
@@ -159,6 +169,31 @@ func parseContractFile(path, pkgPath string) (*ContractFile, error) {
 			}
 			cf.Contracts = append(cf.Contracts, cur)
 			continue
+		case "define":
+			// define name(p1, p2) = expr   (a specification macro; continuation lines allowed)
+			cur, lem = nil, nil
+			open := strings.Index(rest, "(")
+			cl := strings.Index(rest, ")")
+			if open < 0 || cl < open {
+				return nil, fmt.Errorf("%s:%d: define name(params) = expr", path, ln+1)
+			}
+			after := strings.TrimSpace(rest[cl+1:])
+			if !strings.HasPrefix(after, "=") {
+				return nil, fmt.Errorf("%s:%d: define name(params) = expr", path, ln+1)
+			}
+			m := &Macro{Name: strings.TrimSpace(rest[:open]), Pkg: pkgPath}
+			for _, p := range strings.Split(rest[open+1:cl], ",") {
+				if p = strings.TrimSpace(p); p != "" {
+					m.Params = append(m.Params, p)
+				}
+			}
+			cf.Macros = append(cf.Macros, m)
+			var tmp []Clause
+			addClause(&tmp, strings.TrimSpace(after[1:]), ln+1)
+			mm := m
+			pp := pend[len(pend)-1]
+			copyBack = append(copyBack, func() { mm.Body = pp.c.Expr })
+			continue
 		case "lemma":
 			lem = &Lemma{Pkg: pkgPath, Name: fields[1], File: path, Line: ln + 1}
 			cur = nil
@@ -223,6 +258,9 @@ func parseContractFile(path, pkgPath string) (*ContractFile, error) {
 			curSlot = nil
 		case "bounded":
 			cur.Bounded = rest
+			curSlot = nil
+		case "pure_param":
+			cur.PureParams = append(cur.PureParams, fields[1:]...)
 			curSlot = nil
 		case "split":
 			if len(fields) != 4 {
